@@ -160,6 +160,10 @@ type Case struct {
 	PenAmt   string   `json:"pen_amount,omitempty"`
 	VRun     *VoterRun  `json:"vrun,omitempty"`
 	DRun     *DetectRun `json:"drun,omitempty"`
+	LRun     *LifeRun   `json:"lrun,omitempty"`
+	// keys whose every signature in this case was sent by a real protocol-following Voter (life runs)
+	Honest   []int      `json:"honest,omitempty"`
+	FromLife *LifeRun   `json:"from_life,omitempty"` // the life whose votes the evidence of this case pairs up
 	Note     string   `json:"note,omitempty"`
 	Obs      Obs      `json:"obs"`
 
@@ -579,6 +583,9 @@ func observe(c *Case) {
 		return
 	case "detect":
 		observeDetect(c)
+		return
+	case "life":
+		observeLife(c)
 		return
 	}
 	w := buildWorld(c)
